@@ -15,7 +15,7 @@ import (
 var c35Mutations = []struct{ name, class string }{
 	{"aat-sig-flip", "token-signature"}, {"aat-sig-empty", "token-signature"}, {"aat-signed-by-stranger", "token-signature"},
 	{"aat-version", "token-version"}, {"aat-no-version", "token-version"},
-	{"aat-client-swapped", "token-client-key"}, {"aat-app-swapped", "token-app-key"},
+	{"aat-client-swapped", "token-client-key"}, {"aat-app-swapped", "token-app-key"}, {"aat-app-key-uppercase", "token-app-key"},
 	{"proof-sig-flip", "client-signature"}, {"proof-sig-empty", "client-signature"}, {"proof-signed-by-stranger", "client-signature"}, {"proof-signed-by-app", "client-signature"},
 	{"request-hash-other-payload", "request-hash"}, {"request-hash-garbage", "request-hash"}, {"payload-changed-after-signing", "request-hash"},
 	{"servicer-changed-after-signing", "servicer-key"}, {"chain-changed-after-signing", "chain"}, {"session-changed-after-signing", "session-height"},
@@ -193,7 +193,7 @@ func init() {
 
 	register(&Check{ID: "C35", QuickBud: 150 * time.Second, ThorBud: 30 * time.Minute,
 		Run: func(c *ev.Ctx) {
-			c.Rule = "On the real application (this process is servicer N1; relays are executed against a local stub chain) every chain state reached by a menu of application unstake/restake, node jail/unjail/unstake/edit and empty blocks up to the depth is probed through the real HandleRelay with: a well-formed relay, the identical relay again, 19 single-field alterations (token signature/version/client key/app key, client signature, request hash, payload, servicer key, chain, session height, entropy), relays whose fields are valid but unauthorized (other servicer, chain not staked by the app, chain not hosted, unstaked application key), sessions -3..+2 around the current one, heights next to the current session boundary that start no session, and client heights at and beyond the sync allowance. A relay must be served, recorded exactly once and answered with a verifying servicer signature iff a reference evaluation of the state says it is authorized; otherwise it must be rejected and the stored evidence unchanged"
+			c.Rule = "On the real application (this process is servicer N1; relays are executed against a local stub chain) every chain state reached by a menu of application unstake/restake, node jail/unjail/unstake/edit and empty blocks up to the depth is probed through the real HandleRelay with: a well-formed relay, the identical relay again, 20 single-field alterations (token signature/version/client key/app key, client signature, request hash, payload, servicer key, chain, session height, entropy), relays whose fields are valid but unauthorized (other servicer, chain not staked by the app, chain not hosted, unstaked application key), sessions -3..+2 around the current one, heights next to the current session boundary that start no session, and client heights at and beyond the sync allowance. A relay must be served, recorded exactly once and answered with a verifying servicer signature iff a reference evaluation of the state says it is authorized; otherwise it must be rejected and the stored evidence unchanged"
 			c.Assume("session membership in the reference comes from pc.NewSession evaluated without caches (node selection itself is decided by C33); two environments: two seats for two nodes, and one seat for two nodes (the node is then often eligible but not selected)")
 			env := defaultEnv()
 			env.SessionNodeCount = 2
